@@ -102,6 +102,11 @@ P = {
         note="Independence of the numeric pipeline from the rest of the request is a property of shared mutable state in the implementation: decided by the paired-run correspondence, not by a theorem about a functional model (which would be vacuous).",
         tech="Coq proof (pandas merge-suffix model, assoc-list cache) + computation on generated merge facts + paired-run differential correspondence",
         ref="DESIGN.md section 5 C13"),
+    "C10": dict(
+        text="Theorems for EVERY outlier model and EVERY estimator (arbitrary functions): replacing the row of a unit that is below the threshold, blocklisted or zero-baseline by other counts changes neither the outlier flags nor the set of rows any fit sees, hence no fitted quantity; the fitting rows are those of the C09 decision table; in the bootstrap a partial count only clips the same unit's draws; the historical frame does not depend on hidden results. Correspondence: paired perturbation runs with the arguments of every solver fit captured and compared bit for bit, every other unit row and every aggregate row of groups not containing the unit compared bit for bit, all three estimators; historical frame pairs.",
+        note="Partial for the bootstrap: the interior of compute_bootstrap_errors (strata distributions, PIT, multivariate samplers) is not modelled beyond 'a function of the fitting rows and the seeded generator'; that part rests on the paired runs.",
+        tech="Coq proof (non-interference of a composed functional model, solver and outlier model universally quantified) + paired-run differential correspondence with solver-argument capture",
+        ref="DESIGN.md section 5 C10"),
 }
 
 REASON_NOT_BUILT = "check not built yet in this development stage (planned: see DESIGN.md section 5)"
